@@ -416,7 +416,11 @@ Section SingleFile.
       destruct (Nat.eqb_spec rf k).
       + subst k. rewrite Nat.ltb_irrefl, andb_false_r. lia.
       + assert (Nat.ltb k rf = true) as -> by (apply Nat.ltb_lt; lia). cbn [Nat.leb andb]. lia.
-    - rewrite sf_tasks. fold T rf fin. intros x y Hx Hy Hr Hxc Hyt.
+    - intros A0 x B0 y C0 E0 Hr Hxc Hyt. left.
+      assert (Hx : In x (tasks_of (singlefile_script current_rule n pack ref rest))) by (rewrite E0; apply tasks_of_in).
+      assert (Hy : In y (tasks_of (singlefile_script current_rule n pack ref rest)))
+        by (rewrite E0, app_comm_cons, app_assoc; apply tasks_of_in).
+      clear E0. rewrite sf_tasks in Hx, Hy. fold T rf fin in Hx, Hy.
       apply in_app_or in Hx. apply in_app_or in Hy.
       destruct Hx as [Hx|Hx]; [|apply repeat_spec in Hx; subst x; cbn in Hxc; discriminate].
       destruct Hy as [Hy|Hy]; [apply (g_before _ _ _ _ _ G); assumption|].
@@ -439,7 +443,7 @@ Proof.
     + inversion E. contradiction.
     + inversion E as [[E1 E2]]. subst l. clear E.
       assert (HvL' : ~ In v L) by (intro H; apply HvL; right; exact H).
-      clear HvL HuM Hu IH. revert L E2 HvL'. induction B as [|b B IHB]; intros L E2 HvL'.
+      clear HvL HuM Hu. revert L E2 HvL'. induction B as [|b B IHB]; intros L E2 HvL'.
       * destruct L as [|l L]; cbn [app] in E2; inversion E2; [contradiction|]. subst. exfalso. apply HvL'. left. reflexivity.
       * destruct L as [|l L]; cbn [app] in E2; inversion E2.
         -- left. reflexivity.
@@ -493,7 +497,8 @@ Section MultiFile.
     = (snd a ++ [PWaitEmpty] ++ repeat (PPush ftok) n) ++ PWaitEmpty :: (snd c ++ repeat (PPush fin) n ++ [PClose]).
   Proof.
     unfold multifile_script. fold a. fold b. fold c. unfold final_block. rewrite mf_rnd_c.
-    unfold b at 2. unfold flush_block. cbn [snd]. rewrite mf_rnd_a. fold ftok. fold fin.
+    change (snd b) with (repeat (PPush (mk_task true (0%N, 0%N) 0 det_flush_prio 0 (ps_seq (fst a)) (ps_rnd (fst a)))) n).
+    rewrite mf_rnd_a. fold ftok. fold fin.
     rewrite <- !app_assoc. reflexivity.
   Qed.
 
@@ -564,7 +569,11 @@ Section MultiFile.
       + unfold is_tokk. cbn [t_tok t_round ftok fin andb]. destruct k as [|[|k]]; cbn [Nat.eqb]; lia.
       + intros x Hx. destruct (H2 x Hx) as [E _]. apply is_tokk_ctg. exact E.
       + intros x Hx. destruct (H1 x Hx) as [E _]. apply is_tokk_ctg. exact E.
-    - rewrite ET. intros x y Hx Hy Hr Hxc Hyt. apply in_app_or in Hx. apply in_app_or in Hy.
+    - intros A0 x B0 y C0 E0 Hr Hxc Hyt. left.
+      assert (Hx : In x (tasks_of (multifile_script current_rule n first rest))) by (rewrite E0; apply tasks_of_in).
+      assert (Hy : In y (tasks_of (multifile_script current_rule n first rest)))
+        by (rewrite E0, app_comm_cons, app_assoc; apply tasks_of_in).
+      clear E0. rewrite ET in Hx, Hy. apply in_app_or in Hx. apply in_app_or in Hy.
       assert (Hyp : t_prio y = 1000000%Z /\ (t_round y = 0%nat \/ t_round y = 1%nat)).
       { destruct Hy as [Hy|Hy]; apply in_app_or in Hy; destruct Hy as [Hy|Hy].
         - destruct (H1 y Hy) as [E _]. congruence.
@@ -579,7 +588,7 @@ Section MultiFile.
         - apply repeat_spec in Hx. subst x. cbn in Hxc. discriminate. }
       apply task_cmp_lt_prio. lia.
     - (* a later round is only entered through sync_and_flush's wait *)
-      intros A x B y C E Hr. right. rewrite mf_script in E.
+      intros A x B y C E Hr. right. rewrite mf_script in E. symmetry in E.
       assert (ETA : forall l, tasks_of (l ++ [PWaitEmpty] ++ repeat (PPush ftok) n) = tasks_of l ++ repeat ftok n).
       { intros l. rewrite !tasks_of_app. cbn [tasks_of]. rewrite tasks_of_repeat_push. reflexivity. }
       assert (ETC : tasks_of (snd c ++ repeat (PPush fin) n ++ [PClose]) = T2 ++ repeat fin n).
